@@ -54,6 +54,19 @@
 
 #include "mp/ampls-cpp-api.h"
 
+#ifdef AMPL_MP_VERIF
+/// Verification hook (compiled only with -DAMPL_MP_VERIF): a call-out,
+/// null by default, invoked with the name of the program point
+/// before/after each individual store of the SignalHandler constructor,
+/// SetHandler and destructor, so that a test can deliver a signal
+/// deterministically at that point.
+void (*mp_verif_point)(const char *name) = 0;
+# define MP_VERIF_POINT(name) \
+  do { if (mp_verif_point) mp_verif_point(name); } while (0)
+#else
+# define MP_VERIF_POINT(name) ((void)0)
+#endif
+
 namespace {
 
 const char *SkipSpaces(const char *s) {
@@ -501,24 +514,39 @@ SignalHandler::SignalHandler(BasicSolver &s)
     message_(fmt::format("\n<BREAK> ({})\n",
                          "solver")),  //s.name())),
     repeater_(std::getenv("SW_sigpipe")) {
+  MP_VERIF_POINT("sh.ctor.enter");
   solver_.set_interrupter(this);
+  MP_VERIF_POINT("sh.ctor.after_set_interrupter");
   signal_message_ptr_ = message_.c_str();
+  MP_VERIF_POINT("sh.ctor.after_msg_ptr");
   signal_message_size_ = static_cast<unsigned>(message_.size());
+  MP_VERIF_POINT("sh.ctor.after_msg_size");
   std::signal(SIGINT, HandleSigInt);
+  MP_VERIF_POINT("sh.ctor.after_signal_int");
   std::signal(SIGTERM, HandleSigInt);
+  MP_VERIF_POINT("sh.ctor.after_signal_term");
   stop_ = 0;
+  MP_VERIF_POINT("sh.ctor.after_stop0");
 }
 
 SignalHandler::~SignalHandler() {
+  MP_VERIF_POINT("sh.dtor.enter");
   solver_.set_interrupter(0);
+  MP_VERIF_POINT("sh.dtor.after_set_interrupter");
   stop_ = 1;
+  MP_VERIF_POINT("sh.dtor.after_stop1");
   handler_ = 0;
+  MP_VERIF_POINT("sh.dtor.after_handler0");
   signal_message_size_ = 0;
+  MP_VERIF_POINT("sh.dtor.after_msg_size0");
 }
 
 void SignalHandler::SetHandler(InterruptHandler handler, void *data) {
+  MP_VERIF_POINT("sh.set.enter");
   handler_ = handler;
+  MP_VERIF_POINT("sh.set.after_handler");
   data_ = data;
+  MP_VERIF_POINT("sh.set.after_data");
 }
 
 void SignalHandler::HandleSigInt(int sig) {
